@@ -41,6 +41,7 @@ type CtrlCfg struct {
 	Fl   string `json:"fl"`
 	Late bool   `json:"late"`
 	Ins  []In   `json:"ins"`
+	Alt  []In   `json:"alt"` // inputs the controller switches to by UpdateInputs (empty: never)
 }
 
 type Cmd struct {
@@ -243,6 +244,8 @@ type gate struct {
 	tokens   chan struct{}
 	free     chan struct{}
 	failNext atomic.Int32
+	update   atomic.Bool // the next reconcile calls UpdateInputs first
+	updated  atomic.Bool
 }
 
 func newGate() *gate { return &gate{tokens: make(chan struct{}, 1024), free: make(chan struct{})} }
@@ -406,7 +409,24 @@ func (r *run) register(rtm interface {
 					return errProbe
 				}
 
-				obs, rerr := r.readInputs(ctx, h, c)
+				if g.update.Load() && !g.updated.Load() && len(c.Alt) > 0 {
+					alt := c
+					alt.Ins = c.Alt
+
+					if uerr := h.UpdateInputs(inputsOf(alt)); uerr != nil {
+						r.emit(Line{Ev: "violation", What: "valid-update-inputs-rejected", Note: uerr.Error()})
+					} else {
+						g.updated.Store(true)
+						r.emit(Line{Ev: "cfg", C: name, Fl: c.Fl, Ins: c.Alt})
+					}
+				}
+
+				cur := c
+				if g.updated.Load() {
+					cur.Ins = c.Alt
+				}
+
+				obs, rerr := r.readInputs(ctx, h, cur)
 				if rerr != nil {
 					if ctx.Err() != nil {
 						return nil
@@ -678,6 +698,8 @@ func runBehaviour(t *testing.T, tr *vh.Trace, tid string, beh Beh) {
 				}
 			case "start":
 				r.register(rtm, c.Ctrl)
+			case "update":
+				r.gates[c.Ctrl].update.Store(true)
 			}
 
 			synctest.Wait()
